@@ -1456,8 +1456,17 @@ class Sim:
                 mask[tuple(slice(l, h) for l, h in zip(lo, hi))] = True
                 if op.get("big"):
                     mask[tuple(slice(l // 2, None) for l in lo)] = True
-        mask &= fr != value
-        if not mask.any():
+        noop = op.get("noop")
+        if noop == "bg":
+            # a stroke with the eraser over background only: nothing changes, but it is a
+            # legal request (and a recorded, undoable, notifying action)
+            value, vmode = 0, "bg"
+            mask &= fr == 0
+        elif noop == "empty":
+            mask[:] = False  # an update that lists no pixels at all
+        else:
+            mask &= fr != value
+        if not mask.any() and noop != "empty":
             return None
         olds = [int(x) for x in np.unique(fr[mask]).tolist()]
         updated = []
@@ -1468,8 +1477,8 @@ class Sim:
             updated.reverse()
         saved = fr.copy()
         extra_frames = []  # (frame index, mask, saved copy) of further frames of this stroke
-        two_frames_invalid = op.get("invalid") == "two_frames" and self.T > 1 and value != 0
-        n_more = 1 if two_frames_invalid else (op.get("frames", 1) - 1 if value == 0 else 0)
+        two_frames_invalid = op.get("invalid") == "two_frames" and self.T > 1 and value != 0 and not noop
+        n_more = 0 if noop else 1 if two_frames_invalid else (op.get("frames", 1) - 1 if value == 0 else 0)
         for k in range(n_more):
             # a stroke spanning several frames: legal for an erase (background), an
             # invalid request for a label (the library documents one time point per update)
@@ -1496,7 +1505,9 @@ class Sim:
                 part.append(old)
             else:
                 erased_all.append(old)
-        if value == 0:
+        if noop:
+            tags.append("noop_" + noop)
+        elif value == 0:
             tags.append("erase_all" if erased_all else "erase_part")
         elif vmode == "new":
             tags.append("new_label")
@@ -1522,7 +1533,7 @@ class Sim:
             named_nodes |= {int(x) for x in np.unique(saved_fr2[mask2]).tolist()}
         named_nodes.discard(0)
         trk = tr.features.tracklet_key
-        named_tracks = {tid} if vmode == "new" else set()
+        named_tracks = {tid} if vmode == "new" and not noop else set()
         allowed = None  # composite: forced-removal oracle not applied to paint
         out = self._user_action(
             op, lambda: UserUpdateSegmentation(tr, self.N(value), [(px, self.N(o)) for px, o in updated], self.NT(tid), force=force), "pt",
@@ -1538,7 +1549,7 @@ class Sim:
             if part or erased_all:
                 self.count("pt_refused_after_overwrite")
         else:
-            if vmode == "new":
+            if vmode == "new" and not noop:
                 out["new_node"] = value
             if self.active("C07") and not np.array_equal(tr.segmentation, painted):
                 self.violate("C07", "C07.painted", "after an accepted paint the array differs from what the caller painted", op, tags)
